@@ -190,6 +190,20 @@ CHECKS["C12"] = dict(
     note="States in which the object itself cannot compute its mean/std curve (an azimuth whose accepted windows all "
          "lack a peak) are not writable and are skipped and counted; np.loadtxt is trusted to parse %.18e exactly.")
 
+CHECKS["C20"] = dict(
+    engine="E1", section="4/C20",
+    text="The C05/C11 state graphs (and a diffuse-field one) are explored to depth 1-2; in every reachable state "
+         "plot_single_panel_hvsr_curves is called for every combination of its 9 options within 1-2 deviations of the "
+         "defaults, summarize_hvsr_statistics for the 4 distribution pairs, plot_seismic_recordings_3c, "
+         "plot_pre_and_post_rejection and the three azimuthal figures (Agg); a deep snapshot of the object and "
+         "recordings must be identical afterwards, also when the function raises, and the artists must carry the "
+         "state: one accepted-/rejected-style line per accepted/rejected window with that window's curve, mean and "
+         "+-1 std lines, mean-curve-peak and per-window peak markers, the fn band, and the table's fn/An rows and "
+         "period row (lognormal median and log-std of the reciprocal peak frequencies via math.fsum).",
+    note="Agg backend; artists identified by the style constants in DEFAULT_KWARGS and compared by data, not pixels; "
+         "statistic artists judged only where the statistics are defined; contour meshes, the -1/+1 columns of the "
+         "period row and the interactive manual_window_rejection are not covered.")
+
 NOT_APPLICABLE = []
 
 PENDING = ["C01", "C02", "C03", "C04", "C05", "C06", "C07", "C09", "C10", "C11", "C12", "C13",
